@@ -160,7 +160,7 @@ func TestReceiverReports(t *testing.T) {
 		ic.BindRTCPWriter(sink)
 		defer func() {
 			gate.Open()
-			_ = ic.Close()
+			kit.BoundedClose(ic.Close)
 		}()
 		rtcpSrc := &kit.ByteSource{}
 		rtcpReader := ic.BindRTCPReader(rtcpSrc)
